@@ -6,8 +6,9 @@ Case kinds (`op`):
            the detections that survive the rectangle mask, the per-frame peak lists, the converted linker
            parameters) is fed to the Lean model; the final KymoTrackGroup is judged by the oracle.
   link     `points_to_line_segments` on synthetic peak lists (exhaustive small scope + random)
-  sumwin   `_sum_track_signal` on one column (exhaustive small scope + random)
-  rect     `_to_pixel_rect`
+  sumwin   the photon-count window on one column, through the public `KymoTrack.sample_from_image` (exhaustive small
+           scope + random)
+  rect     the pixel rectangle `track_greedy(rect=…)` hands to the peak finder (`_to_pixel_rect`)
   units    `KymoTrack.seconds/position/coordinate_idx/duration`
   edit     programs of interpolate/split/merge/filter/refine/regroup on the result of track_greedy or track_lines, also
            with refinement/interpolation of only SOME of the tracks before a merge (tracks of different provenance in one
@@ -17,8 +18,18 @@ Case kinds (`op`):
            stated in that call, and `sample_from_image` with a stated half width), judged by the oracle; a few of the
            reported counts also go through the model's window sum
   badparam the malformed stream: parameters `track_greedy` must refuse
+
+How the code is reached (robustness against behaviour-preserving refactorings, DESIGN "C08"): everything the property
+speaks about is observed through the public API (`lk.track_greedy/track_lines/filter_tracks/refine_tracks_*`, the classes
+of the objects those return, `KymoTrack.time_idx/coordinate_idx/position/seconds/duration/photon_counts/
+sample_from_image/interpolate`, group indexing and `+`).  The anchored mechanisms (find_kymograph_peaks/merge_close_peaks,
+points_to_line_segments with KymoPeaks and kymo_score, KymoTrackGroup._split_track/_merge_tracks) have no public
+equivalent: they are looked up by their own name wherever pylake keeps them (`_find`), their arguments are read by
+parameter name (`_bound`), and an observation that cannot be made this way is "?" (skipped; `agree` and the oracle never
+read a "?" as an answer of the implementation) while the public results of the same run are judged all the same.
 """
 import importlib
+import inspect
 import itertools
 import json
 import math
@@ -64,8 +75,13 @@ THEOREMS = [
 RULE = (
     "exhaustive small scope: the linker on all peak layouts of <=3 frames x <=2 peaks on a 4-point coordinate grid "
     "with windows {0,1,2} and a cone whose edge falls exactly on grid points (strict inequality), every amplitude "
-    "order; the photon-count window on all columns of length <=5, half widths 0..2 and quarter-pixel coordinates "
-    "(exact half-pixel boundaries included); _to_pixel_rect on dyadic grids. Seeded random: Poisson kymographs "
+    "order - each layout through the linker itself and (all of <=2 frames, every other one of 3 frames, and the random "
+    "grid layouts) once more through the PUBLIC tracker alone: drawn into an image with one bright pixel per peak, three "
+    "pixels per grid step, tracked by lk.track_greedy on an uncalibrated kymograph with line time 1 s and the tracks read "
+    "from time_idx/coordinate_idx; the photon-count window (KymoTrack.sample_from_image of a one-point track on a one-line "
+    "kymograph) on all columns of length <=5, half widths 0..2 and quarter-pixel coordinates "
+    "(exact half-pixel boundaries included); the pixel rectangle track_greedy hands to the peak finder on dyadic grids. "
+    "Seeded random: Poisson kymographs "
     "(6-40 pixels x 1-60 lines, thorough up to 60x200) with 0-4 drifting, diffusing, blinking spots, pixel sizes in "
     "um/kbp/pixel units, dyadic and non-dyadic line times, all track_greedy parameters (threshold or percentile, "
     "track width 3-9 px, window 0-8, sigma or default, velocity, diffusion, sigma_cutoff, rectangle, adjacency "
@@ -91,6 +107,9 @@ TRUSTED = [
     "implementation itself produced (observed at the call boundary of KymoPeaks/points_to_line_segments)",
     "IEEE double arithmetic of numpy and of Lean's Float agree bit for bit on + - * / sqrt (no FMA contraction)",
     "np.argsort on distinct keys (cases with equal amplitudes inside one frame are compared leniently and counted)",
+    "public linker stream: peak detection (outside the model) finds exactly the drawn pixels - isolated single bright "
+    "pixels three apart on a dark background, half width 1, threshold 0.5, no bias correction: integer centroids, amplitude "
+    "= pixel value, peaks of a line in increasing coordinate order",
 ]
 ASSUMPTIONS = [
     "line indices of detections are integers (np.where output), so a frame index is the time of its peaks",
@@ -99,6 +118,14 @@ ASSUMPTIONS = [
     "rectangle corners are kept 1e-6 away from pixel/line boundaries unless the quotient is exact (dyadic), since "
     "_to_pixel_rect truncates a rounded float quotient",
     "a photon-count window is accepted for either neighbouring centre pixel when c + 1/2 is within 1e-9 of an integer",
+    "a linker case whose track partition differs from the model's is not counted when some peak lies within 1e-12 "
+    "(relative) of a cone edge without lying exactly on it, or two peaks of a line are that close to equally far from a "
+    "prediction without being exactly equally far (decided in rational arithmetic on the doubles): the decision then "
+    "hangs on the rounding of whichever algebraically equal expression the code uses; counted in the evidence",
+    "observations of internal mechanisms (the data handed to find_kymograph_peaks, KymoPeaks, merge_close_peaks, "
+    "kymo_score, points_to_line_segments; KymoTrack._kymo; KymoTrackGroup._split_track/_merge_tracks) are made while they "
+    "are reachable by name; what is not reachable is skipped and counted (observations_not_reachable_on_this_code, "
+    "edit_steps_not_reachable_private_method_gone), the public results are judged by the oracle all the same",
 ]
 
 _DEFAULT_TW = {"um": 0.35, "kbp": 0.35 / 0.34, "pixel": 4}
@@ -106,23 +133,123 @@ _DEFAULT_TW = {"um": 0.35, "kbp": 0.35 / 0.34, "pixel": 4}
 # ------------------------------------------------------------------ helpers
 
 
-def _mods():
-    kt = importlib.import_module("lumicks.pylake.kymotracker.kymotracker")
-    pf = importlib.import_module("lumicks.pylake.kymotracker.detail.peakfinding")
-    tl = importlib.import_module("lumicks.pylake.kymotracker.detail.trace_line_2d")
-    sf = importlib.import_module("lumicks.pylake.kymotracker.detail.scoring_functions")
-    kk = importlib.import_module("lumicks.pylake.kymotracker.kymotrack")
-    ky = importlib.import_module("lumicks.pylake.kymo")
-    return kt, pf, tl, sf, kk, ky
+UNSEEN = "?"  # an observation the harness could not make (never an answer of the implementation)
+
+
+class Unreachable(Exception):
+    """the harness cannot even build its input (the one private builder it needs is gone): reported as a broken tie"""
+
+
+class _Skip(Exception):
+    """a step of an editing program that needs a private method which is not reachable (any more)"""
+
+
+def _lk():
+    return importlib.import_module("lumicks.pylake")
+
+
+_FOUND = {}
+
+
+def _find(name):
+    """(object, [modules whose globals hold it under that name]) for an internal function/class of pylake, looked up by its
+    OWN NAME in whatever module of the package defines or imports it — no private module path is spelled out here, so a
+    function that a refactoring moves to another file, or imports differently, is still found.  (None, []) when there is no
+    such object (renamed, inlined) or the name is ambiguous."""
+    if name in _FOUND:
+        return _FOUND[name]
+    import sys
+
+    lk = _lk()
+    cands = []
+    for mn, mod in list(sys.modules.items()):
+        if mod is None or not (mn == "lumicks.pylake" or mn.startswith("lumicks.pylake.")) or ".tests" in mn:
+            continue
+        obj = getattr(mod, "__dict__", {}).get(name)
+        if obj is None or not callable(obj) or getattr(obj, "_verif_spy", False):
+            continue
+        if getattr(obj, "__name__", None) != name or not str(getattr(obj, "__module__", "")).startswith("lumicks.pylake"):
+            continue
+        cands.append((obj, mod))
+    objs = []
+    for o, _ in cands:
+        if not any(o is q for q in objs):
+            objs.append(o)
+    if len(objs) > 1:  # prefer what the module of the public tracker itself refers to
+        home = sys.modules.get(getattr(lk.track_greedy, "__module__", ""))
+        objs = [o for o in objs if home is not None and home.__dict__.get(name) is o]
+    res = (objs[0], [m for o, m in cands if o is objs[0]]) if len(objs) == 1 else (None, [])
+    _FOUND[name] = res
+    return res
+
+
+def _bound(fn, args, kwargs):
+    """the arguments of a call by PARAMETER NAME (defaults filled in), or None when the call does not fit the signature"""
+    try:
+        b = inspect.signature(fn).bind(*args, **kwargs)
+        b.apply_defaults()
+        return dict(b.arguments)
+    except (TypeError, ValueError):
+        return None
+
+
+def _call_named(fn, **kw):
+    """fn(**kw) if fn takes these parameter names, else Unreachable-by-None: returns (True, value) or (False, None)"""
+    if fn is None or _bound(fn, (), kw) is None:
+        return False, None
+    return True, fn(**kw)
 
 
 def make_kymo(case):
-    _, _, _, _, _, ky = _mods()
+    # No public constructor makes a kymograph from an array with an exact (dyadic) line time or without calibration;
+    # `_kymo_from_array` (behind ImageStack.to_kymo and lk.simulation) is the one private builder of this harness.  It is
+    # looked up by name and called by parameter name; if it is gone the tie is reported as broken, not as an answer.
+    f, _ = _find("_kymo_from_array")
     img = np.array(case["image"], dtype=float)
-    kymo = ky._kymo_from_array(img, "r", line_time_seconds=case["line_time"], pixel_size_um=case.get("pixel_size_um"))
+    kw = {"image": img, "color_format": "r", "line_time_seconds": case["line_time"], "pixel_size_um": case.get("pixel_size_um")}
+    ok, kymo = _call_named(f, **kw)
+    if not ok:
+        raise Unreachable("private member _kymo_from_array is gone")
     if case.get("kbp"):
         kymo = kymo.calibrate_to_kbp(case["kbp"])
     return kymo
+
+
+_CLASSES = {}
+
+
+def _classes():
+    """(KymoTrackGroup, KymoTrack): the classes of what the public tracker returns (fallback: by name)"""
+    if "c" not in _CLASSES:
+        g_cls = t_cls = None
+        try:
+            g = _lk().track_greedy(
+                make_kymo({"image": small_image(), "line_time": 0.5, "pixel_size_um": 0.1}), "red", pixel_threshold=2.0
+            )
+            g_cls, t_cls = type(g), type(g[0])
+        except Unreachable:
+            raise
+        except Exception:
+            pass
+        if g_cls is None:
+            g_cls = _find("KymoTrackGroup")[0]
+        if t_cls is None:
+            t_cls = _find("KymoTrack")[0]
+        _CLASSES["c"] = (g_cls, t_cls)
+    return _CLASSES["c"]
+
+
+def make_track(time_idx, coords, kymo, min_duration):
+    """a KymoTrack from line indices and pixel coordinates (documented constructor: time_idx, localization, kymo, channel,
+    minimum_observable_duration), or None when the class does not take these arguments any more"""
+    cls = _classes()[1]
+    if cls is None:
+        return None
+    t, c = np.array(time_idx, dtype=np.int64), np.array(coords, dtype=float)
+    if _bound(cls, (t, c, kymo, "red", min_duration), {}) is not None:
+        return cls(t, c, kymo, "red", min_duration)
+    ok, tr = _call_named(cls, time_idx=t, localization=c, kymo=kymo, channel="red", minimum_observable_duration=min_duration)
+    return tr if ok else None
 
 
 def unit_of(case):
@@ -165,53 +292,133 @@ def stated_half_width(width, env):
 
 
 class Spies:
-    """wrap the functions `track_greedy` calls, to observe the data it hands to them"""
+    """wrap the mechanism functions `track_greedy` calls (anchors.mechanism: find_kymograph_peaks / merge_close_peaks,
+    points_to_line_segments; KymoPeaks and kymo_score carry their data), to observe the data it hands to them.  Each is
+    looked up by its own name (`_find`) and replaced in every module that refers to it; its arguments are read by parameter
+    name (`_bound`), however the caller passes them.  What cannot be seen this way — a function, parameter or attribute
+    that a refactoring renamed — is not recorded: the observations built on it are skipped ("?").  A spy never changes what
+    the code does: it records inside try/except and then calls the original with the original arguments."""
+
+    NAMES = ("find_kymograph_peaks", "kymo_score", "points_to_line_segments", "KymoPeaks", "merge_close_peaks")
 
     def __init__(self):
         self.rec = {}
         self.saved = []
 
-    def _patch(self, mod, name, fn):
-        self.saved.append((mod, name, getattr(mod, name)))
-        setattr(mod, name, fn)
+    def _patch(self, name, make):
+        orig, holders = _find(name)
+        if orig is None:
+            return
+        fn = make(orig)
+        if fn is orig:
+            return
+        try:
+            fn._verif_spy = True
+        except Exception:
+            pass
+        for mod in holders:
+            if mod.__dict__.get(name) is orig:
+                self.saved.append((mod, name, orig))
+                setattr(mod, name, fn)
 
     def __enter__(self):
-        kt, pf, _, _, _, _ = _mods()
+        import functools
+
         rec = self.rec
-        o_fkp, o_score, o_link = kt.find_kymograph_peaks, kt.kymo_score, kt.points_to_line_segments
-        o_kp, o_merge = pf.KymoPeaks, pf.merge_close_peaks
 
-        def fkp(data, hw, thr, *a, **kw):
-            rec["fkp"] = {"hw": int(hw), "rect": kw.get("rect"), "nargs": len(a)}
-            return o_fkp(data, hw, thr, *a, **kw)
+        def quietly(record):
+            try:
+                record()
+            except Exception:
+                pass
 
-        def score(*a, **kw):
-            rec["score"] = dict(kw)
-            rec["score_args"] = a
-            return o_score(*a, **kw)
+        def mk_fkp(orig):
+            @functools.wraps(orig)
+            def fkp(*a, **kw):
+                def record():
+                    args = _bound(orig, a, kw) or {}
+                    hw = args.get("half_width_pixels")
+                    rec["fkp"] = {"hw": None if hw is None else int(hw), "rect": args.get("rect", UNSEEN)}
 
-        def link(peaks, model, *a, **kw):
-            rec["link_in"] = [(f.coordinates.copy(), np.asarray(f.time_points).copy(), f.peak_amplitudes.copy()) for f in peaks.frames]
-            rec["link_kw"] = dict(kw)
-            rec["link_args"] = a
-            lines = o_link(peaks, model, *a, **kw)
-            rec["lines"] = [(np.asarray(l.time_idx).copy(), np.asarray(l.coordinate_idx).copy()) for l in lines]
-            return lines
+                quietly(record)
+                return orig(*a, **kw)
 
-        class KP(o_kp):
-            def __init__(s, coordinates, time_points, peak_amplitudes):
-                rec.setdefault("kp_args", (np.array(coordinates, dtype=float), np.array(time_points), np.array(peak_amplitudes, dtype=float)))
-                super().__init__(coordinates, time_points, peak_amplitudes)
+            return fkp
 
-        def merge(peaks, d):
-            rec["premerge"] = [f.coordinates.copy() for f in peaks.frames]
-            return o_merge(peaks, d)
+        def mk_score(orig):
+            @functools.wraps(orig)
+            def score(*a, **kw):
+                def record():
+                    args = _bound(orig, a, kw) or {}
+                    if all(k in args for k in ("vel", "sigma", "diffusion")):
+                        rec["score"] = {k: float(args[k]) for k in ("vel", "sigma", "diffusion")}
 
-        self._patch(kt, "find_kymograph_peaks", fkp)
-        self._patch(kt, "kymo_score", score)
-        self._patch(kt, "points_to_line_segments", link)
-        self._patch(pf, "KymoPeaks", KP)
-        self._patch(pf, "merge_close_peaks", merge)
+                quietly(record)
+                return orig(*a, **kw)
+
+            return score
+
+        def mk_link(orig):
+            @functools.wraps(orig)
+            def link(*a, **kw):
+                def record_in():
+                    args = _bound(orig, a, kw) or {}
+                    peaks = args["peaks"]
+                    frames = [
+                        (np.asarray(f.coordinates, dtype=float).copy(), np.asarray(f.time_points).copy(), np.asarray(f.peak_amplitudes, dtype=float).copy())
+                        for f in peaks.frames
+                    ]
+                    rec["link_kw"] = {"window": int(args["window"]), "sigma_cutoff": float(args["sigma_cutoff"])}
+                    rec["link_in"] = frames
+
+                rec["link_called"] = True
+                quietly(record_in)
+                lines = orig(*a, **kw)
+
+                def record_out():
+                    rec["lines"] = [(np.asarray(l.time_idx).copy(), np.asarray(l.coordinate_idx, dtype=float).copy()) for l in lines]
+
+                quietly(record_out)
+                return lines
+
+            return link
+
+        def mk_kp(orig):
+            if not inspect.isclass(orig):
+                return orig
+
+            class KP(orig):
+                def __init__(s, *a, **kw):
+                    def record():
+                        if "kp_args" not in rec:
+                            args = _bound(orig, a, kw) or {}
+                            rec["kp_args"] = (
+                                np.array(args["coordinates"], dtype=float),
+                                np.array(args["time_points"]),
+                                np.array(args["peak_amplitudes"], dtype=float),
+                            )
+
+                    quietly(record)
+                    super().__init__(*a, **kw)
+
+            KP.__name__, KP.__qualname__ = orig.__name__, orig.__qualname__
+            return KP
+
+        def mk_merge(orig):
+            @functools.wraps(orig)
+            def merge(*a, **kw):
+                def record():
+                    args = _bound(orig, a, kw) or {}
+                    peaks = args["peaks"] if "peaks" in args else a[0]
+                    rec["premerge"] = [np.asarray(f.coordinates, dtype=float).copy() for f in peaks.frames]
+
+                quietly(record)
+                return orig(*a, **kw)
+
+            return merge
+
+        for name, make in zip(self.NAMES, (mk_fkp, mk_score, mk_link, mk_kp, mk_merge)):
+            self._patch(name, make)
         return self
 
     def __exit__(self, *exc):
@@ -256,24 +463,50 @@ def dump_group(group, raw_lines=None):
 
 
 def source_of(track, kymos):
-    """index of the kymograph a track was tracked on (a KymoTrack only exposes it as `_kymo`)"""
+    """the kymograph a track was tracked on: its index, or — when it cannot be told for certain — the list of the indices
+    it may be.  A KymoTrack exposes its kymograph only as the private `_kymo` (bookkeeping the property does not speak
+    about): it is read while it is there.  When it is not, the candidates are told from public data: the kymographs whose
+    line time and pixel size reproduce the track's `seconds` and `position` from its line indices and pixel coordinates
+    (the oracle then judges the track on each candidate and accepts it if it is right on one of them)."""
     if len(kymos) == 1:
         return 0
-    k = getattr(track, "_kymo", None)
-    for i, q in enumerate(kymos):
-        if k is q:
-            return i
-    for i, q in enumerate(kymos):  # a copy of the kymograph: same image, line time and pixel size
-        try:
-            if (
-                k.line_time_seconds == q.line_time_seconds
-                and k.pixelsize[0] == q.pixelsize[0]
-                and np.array_equal(k.get_image("red"), q.get_image("red"))
-            ):
+    try:
+        k = track._kymo
+    except AttributeError:
+        k = None
+    if k is not None:
+        for i, q in enumerate(kymos):
+            if k is q:
                 return i
-        except Exception:
-            pass
-    return -1
+        for i, q in enumerate(kymos):  # a copy of the kymograph: same image, line time and pixel size
+            try:
+                if (
+                    k.line_time_seconds == q.line_time_seconds
+                    and k.pixelsize[0] == q.pixelsize[0]
+                    and np.array_equal(k.get_image("red"), q.get_image("red"))
+                ):
+                    return i
+            except Exception:
+                pass
+        return -1
+    cands = []
+    try:
+        ts, sec = np.asarray(track.time_idx, dtype=float), np.asarray(track.seconds, dtype=float)
+        cs, pos = np.asarray(track.coordinate_idx, dtype=float), np.asarray(track.position, dtype=float)
+        for i, q in enumerate(kymos):
+            lt, ps = float(q.line_time_seconds), float(q.pixelsize[0])
+            if np.allclose(sec, ts * lt, rtol=1e-9, atol=0.0) and np.allclose(pos, cs * ps, rtol=1e-9, atol=1e-300):
+                cands.append(i)
+    except Exception:
+        cands = []
+    return cands or list(range(len(kymos)))
+
+
+def same_source(a, b):
+    """both tracks certainly come from one kymograph"""
+    if isinstance(a, list) or isinstance(b, list):
+        return isinstance(a, list) and isinstance(b, list) and len(a) == 1 and a == b
+    return a == b
 
 
 def dump_edit_group(group, kymos, sample_hw):
@@ -334,18 +567,41 @@ def _key(case):
     return canonical({k: v for k, v in case.items() if k not in ("stream", "subseed")})
 
 
+_OPS_MEMO = {}  # per case (hash of its canonical form): what `agree` needs of each op, so that it need not run the case again
+
+
+def _memo_key(k):
+    import hashlib
+
+    return hashlib.sha1(k.encode()).digest()
+
+
 def computed(case):
     k = _key(case)
     if k not in _CACHE:
         if len(_CACHE) > 4:
             _CACHE.clear()
-        _CACHE[k] = RUNNERS[case["op"]](case)
+        try:
+            _CACHE[k] = RUNNERS[case["op"]](case)
+        except Unreachable as e:
+            # the input of the case cannot be built: common.evaluate reports the broken tie (never an answer of the code)
+            _CACHE[k] = ([f"Error:TieBroken:{e}"], [])
+        # the name of each op, and the coordinate of a photon-count window (all that `agree` reads of an op that agrees)
+        _OPS_MEMO[_memo_key(k)] = [(o.split(" ", 1)[0], o.split(" ")[3] if o.startswith("c08.sumwin ") else None) for o in _CACHE[k][1]]
     return _CACHE[k]
+
+
+def op_info(case, i):
+    m = _OPS_MEMO.get(_memo_key(_key(case)))
+    if m is None or i >= len(m):
+        computed(case)
+        m = _OPS_MEMO[_memo_key(_key(case))]
+    return m[i]
 
 
 def run_greedy(case):
     """returns (answers, ops)"""
-    kt, pf, _, _, _, _ = _mods()
+    lk = _lk()
     ps = pixel_size(case)
     lt = case["line_time"]
     tw = track_width_of(case)
@@ -358,41 +614,55 @@ def run_greedy(case):
     ops = [f"c08.validate {enc_rat(tw)} {enc_rat(bound)} {enc_rat(thr)} {enc_rat(diff)}"]
     ans = []
     try:
-        kymo = make_kymo(case)
+        kymo, kymo2 = make_kymo(case), make_kymo(case)
         with Spies() as sp:
-            group = kt.track_greedy(kymo, "red", **greedy_kwargs(case))
+            group = lk.track_greedy(kymo, "red", **greedy_kwargs(case))
         rec = sp.rec
         with Spies():
-            group2 = kt.track_greedy(make_kymo(case), "red", **greedy_kwargs(case))
+            group2 = lk.track_greedy(kymo2, "red", **greedy_kwargs(case))
+    except Unreachable:
+        raise
     except Exception as e:
         return [errname(e)], ops
-    lines = rec.get("lines", [])
+    # what the linker returned, if it was seen (and as many lines as there are tracks: the oracle says so otherwise)
+    lines, peaks_in = rec.get("lines"), rec.get("link_in")
+    if "link_called" not in rec and _find("points_to_line_segments")[0] is not None:
+        lines, peaks_in = [], []  # the linker was not called: no peak was detected
+    paired = lines is not None and len(lines) == len(group)
     dump = {
-        "tracks": dump_group(group, lines if len(lines) == len(group) else None),
+        "tracks": dump_group(group, lines if paired else None),
         "again": dump_group(group2),
-        "peaks": [[float(x) for x in f[0]] for f in rec["link_in"]] if "link_in" in rec else [],
-        "n_lines_raw": len(lines),
+        "peaks": None if peaks_in is None else [[float(x) for x in f[0]] for f in peaks_in],
+        "n_lines_raw": None if lines is None else len(lines),
     }
     ans.append("ok " + json.dumps(dump))
-    # half kernel size
+    # half kernel size (the peak finder is not called for an image without a peak above the threshold)
+    fkp = rec.get("fkp")
     ops.append(f"c08.halfwidth {enc_float(tw)} {enc_float(ps)}")
-    ans.append(str(rec["fkp"]["hw"]) if "fkp" in rec else "find_kymograph_peaks-not-called")
-    if "fkp" not in rec:
-        return ans, ops
-    hw = rec["fkp"]["hw"]
+    if fkp is None:
+        ans.append(UNSEEN if _find("find_kymograph_peaks")[0] is None else "find_kymograph_peaks-not-called")
+    else:
+        ans.append(UNSEEN if fkp["hw"] is None else str(fkp["hw"]))
+    # the half width of the photon-count windows: as seen, else as documented (rounded-up width in pixels, half of it)
+    hw = fkp["hw"] if fkp is not None and fkp["hw"] is not None else half_width_of(case)
     # rectangle
-    prect = rec["fkp"]["rect"]
+    prect = fkp["rect"] if fkp is not None else UNSEEN
+    if prect is not None and not isinstance(prect, str):
+        try:
+            prect = [[int(prect[0][0]), int(prect[0][1])], [int(prect[1][0]), int(prect[1][1])]]
+        except (TypeError, IndexError, ValueError):
+            prect = UNSEEN  # the rectangle travels in another shape now
     if case.get("rect") is not None:
         (s0, x0), (s1, x1) = case["rect"]
         ops.append(f"c08.rect {enc_rat(lt)} {enc_rat(ps)} {enc_rat(s0)} {enc_rat(x0)} {enc_rat(s1)} {enc_rat(x1)}")
-        ans.append("none" if prect is None else enc_list([prect[0][0], prect[0][1], prect[1][0], prect[1][1]]))
+        ans.append(UNSEEN if isinstance(prect, str) else "none" if prect is None else enc_list(prect[0] + prect[1]))
     if "kp_args" in rec:
         pos, tim, m0 = rec["kp_args"]
         dets = "[" + ",".join(enc_det(t, p) for t, p in zip(tim, pos)) + "]"
         if "premerge" in rec:
             ops.append(f"c08.frames {dets}")
             ans.append(enc_listlist(rec["premerge"], lambda x: enc_rat(float(x))))
-        if prect is not None:
+        if prect is not None and not isinstance(prect, str):
             # every detection handed to KymoPeaks passed the mask: filtering them again changes nothing
             (t0, p0), (t1, p1) = prect
             ops.append(f"c08.rectfilter {t0} {p0} {t1} {p1} {dets}")
@@ -402,16 +672,14 @@ def run_greedy(case):
         ops.append(
             f"c08.params {enc_float(case.get('velocity') or 0.0)} {enc_float(diff)} {enc_float(case.get('sigma') or 1.0)} {enc_float(lt)} {enc_float(ps)}"
         )
-        ans.append(enc_list([sc.get("vel", 0.0), sc.get("diffusion", 0.0), sc.get("sigma", 2.0)], enc_float))
-    if "link_in" in rec:
+        ans.append(enc_list([sc["vel"], sc["diffusion"], sc["sigma"]], enc_float))
+    if "link_in" in rec and "score" in rec and lines is not None:
         frames = rec["link_in"]
-        sc = rec.get("score", {})
-        lk = rec.get("link_kw", {})
-        window = lk.get("window", 10)
-        cutoff = lk.get("sigma_cutoff", 2)
+        sc = rec["score"]
+        lk_ = rec["link_kw"]
         ops.append(
-            f"c08.link {int(window)} {enc_float(sc.get('vel', 0.0))} {enc_float(sc.get('sigma', 2.0))} "
-            f"{enc_float(sc.get('diffusion', 0.0))} {enc_float(cutoff)} "
+            f"c08.link {int(lk_['window'])} {enc_float(sc['vel'])} {enc_float(sc['sigma'])} "
+            f"{enc_float(sc['diffusion'])} {enc_float(lk_['sigma_cutoff'])} "
             f"{enc_listlist([f[0] for f in frames], enc_float)} {enc_listlist([f[2] for f in frames], enc_float)}"
         )
         tie = any(len(set(float(a) for a in f[2])) < len(f[2]) or len(set(float(c) for c in f[0])) < len(f[0]) for f in frames)
@@ -422,13 +690,13 @@ def run_greedy(case):
     for i, j in pick:
         t = group[i]
         tt = int(t.time_idx[j])
-        c = float(lines[i][1][j]) if len(lines) == len(group) else float(t.coordinate_idx[j])
+        c = float(lines[i][1][j]) if paired else float(t.coordinate_idx[j])
         col = [int(v) for v in img[:, tt]]
         ops.append(f"c08.sumwin {hw} {enc_list(col)} {enc_rat(c)} 1/2")
         ans.append(str(int(t.photon_counts[j])))
     for i in range(min(2, len(group))):
         t = group[i]
-        raw = lines[i][1] if len(lines) == len(group) else t.coordinate_idx
+        raw = lines[i][1] if paired else t.coordinate_idx
         ops.append(f"c08.units {enc_rat(lt)} {enc_rat(ps)} {enc_list(t.time_idx)} {enc_list(raw, lambda x: enc_rat(float(x)))}")
         ans.append(
             " ".join(
@@ -444,7 +712,12 @@ def run_greedy(case):
 
 
 def run_link(case):
-    _, pf, tl, sf, _, _ = _mods()
+    """the linker on a synthetic peak list: the anchored mechanism itself, found by name and called by parameter name
+    (no public entry takes peak lists: "?" when it is not reachable).  The public ties of the same behaviour are
+    `run_link_public` (cases with via="image": the layout drawn into an image and tracked by lk.track_greedy) and the
+    greedy stream (track_greedy's own peak lists through the same model op, the oracle on the tracks it returns)."""
+    if case.get("via") == "image":
+        return run_link_public(case)
     frames = case["frames"]  # list of [[coord, amp], ...]
     coords = [c for f in frames for c, _ in f]
     times = [i for i, f in enumerate(frames) for _ in f]
@@ -454,14 +727,29 @@ def run_link(case):
         f"{enc_float(case['cutoff'])} {enc_listlist([[c for c, _ in f] for f in frames], enc_float)} "
         f"{enc_listlist([[a for _, a in f] for f in frames], enc_float)}"
     ]
+    kp, score, link = _find("KymoPeaks")[0], _find("kymo_score")[0], _find("points_to_line_segments")[0]
+    kp_kw = {"coordinates": np.array(coords, dtype=float), "time_points": np.array(times, dtype=np.int64), "peak_amplitudes": np.array(amps, dtype=float)}
+    sc_kw = {"vel": case["vel"], "sigma": case["sigma"], "diffusion": case["diffusion"]}
+    if kp is None or score is None or link is None or _bound(kp, (), kp_kw) is None or _bound(score, (), sc_kw) is None:
+        return [UNSEEN], ops
     try:
-        peaks = pf.KymoPeaks(np.array(coords, dtype=float), np.array(times, dtype=np.int64), np.array(amps, dtype=float))
-        model = sf.kymo_score(vel=case["vel"], sigma=case["sigma"], diffusion=case["diffusion"])
-        lines = tl.points_to_line_segments(peaks, model, window=case["window"], sigma_cutoff=case["cutoff"])
+        peaks = kp(**kp_kw)
+        model = score(**sc_kw)
+        ln_kw = {"peaks": peaks, "prediction_model": model, "window": case["window"], "sigma_cutoff": case["cutoff"]}
+        if _bound(link, (), ln_kw) is None:
+            if _bound(link, (peaks, model), {"window": case["window"], "sigma_cutoff": case["cutoff"]}) is None:
+                return [UNSEEN], ops
+            run = lambda: link(peaks, model, window=case["window"], sigma_cutoff=case["cutoff"])  # noqa: E731
+        else:
+            run = lambda: link(**ln_kw)  # noqa: E731
         fr = [(np.array([c for c, _ in f]), None, np.array([a for _, a in f])) for f in frames]
-        nodes = lines_to_nodes(fr, [(l.time_idx, l.coordinate_idx) for l in lines])
-        lines2 = tl.points_to_line_segments(peaks, model, window=case["window"], sigma_cutoff=case["cutoff"])
-        nodes2 = lines_to_nodes(fr, [(l.time_idx, l.coordinate_idx) for l in lines2])
+        out = run()
+        try:
+            got = [(l.time_idx, l.coordinate_idx) for l in out]
+        except AttributeError:
+            return [UNSEEN], ops  # the lines carry their points under other names now
+        nodes = lines_to_nodes(fr, got)
+        nodes2 = lines_to_nodes(fr, [(l.time_idx, l.coordinate_idx) for l in run()])
         tie = any(len(set(a for _, a in f)) < len(f) or len(set(c for c, _ in f)) < len(f) for f in frames)
         a = ("TIE " if tie else "") + show_nodes(nodes)
         if nodes2 != nodes:
@@ -471,48 +759,147 @@ def run_link(case):
         return [errname(e)], ops
 
 
-def run_sumwin(case):
-    _, pf, _, _, _, _ = _mods()
-    col = case["col"]
-    img = np.array(col, dtype=float).reshape(-1, 1)
-    ops = [f"c08.sumwin {case['w']} {enc_list(col)} {enc_rat(case['c'])} 1/2"]
+LINK_IMAGE_SPACING = 3
+
+
+def scaled_link_case(case):
+    """the linker case as the public tracker sees it when the peak layout is drawn into an image with one bright pixel per
+    peak, LINK_IMAGE_SPACING pixels per grid step (peaks then neither share a dilation/centroid window of half width 1 nor
+    leak into each other through the detection filter): coordinates 1 + 3c, velocity and sigma times 3, diffusion times 9
+    (all exact in doubles for the dyadic grid values), so the cone edges fall on grid points exactly as before.  The peaks of
+    a line are listed by increasing coordinate: the order in which peak detection presents them to the linker (it decides
+    between two equally good candidates, and the start order of equal amplitudes)"""
+    S = LINK_IMAGE_SPACING
+    return dict(
+        case,
+        frames=[sorted([1.0 + S * c, a] for c, a in f) for f in case["frames"]],
+        vel=S * case["vel"],
+        sigma=S * case["sigma"],
+        diffusion=S * S * case["diffusion"],
+    )
+
+
+def run_link_public(case):
+    """the same linker case through the PUBLIC API only (no spy, no internal name): the peak layout is drawn into an
+    uncalibrated kymograph with line time 1 s (so the parameter conversion of track_greedy is the identity, bit for bit),
+    one pixel of value `amplitude` per peak on a dark background; `lk.track_greedy(track_width = 3 px, threshold 0.5,
+    bias_correction=False)` detects exactly these pixels (integer centroids, amplitude = pixel value) and links them; the
+    tracks are read from `time_idx`/`coordinate_idx` and compared with the model's `c08.link` on the drawn layout."""
+    sc = scaled_link_case(case)
+    frames = sc["frames"]
+    ops = [
+        f"c08.link {sc['window']} {enc_float(sc['vel'])} {enc_float(sc['sigma'])} {enc_float(sc['diffusion'])} "
+        f"{enc_float(sc['cutoff'])} {enc_listlist([[c for c, _ in f] for f in frames], enc_float)} "
+        f"{enc_listlist([[a for _, a in f] for f in frames], enc_float)}"
+    ]
+    # three dark rows below the last grid row: track_greedy refuses a threshold that no filtered pixel lies below, and in a
+    # dense layout every other row is a peak or the neighbour of one
+    n_pixels = int(max([c for f in frames for c, _ in f] + [3.0])) + 5
+    image = [[0.0] * len(frames) for _ in range(n_pixels)]
+    for t, f in enumerate(frames):
+        for c, a in f:
+            image[int(c)][t] = float(a)
     try:
-        r = pf._sum_track_signal(img, case["w"], [0], [case["c"]], correct_origin=True)
-        return [str(int(r[0]))], ops
+        kymo = make_kymo({"image": image, "line_time": 1.0, "pixel_size_um": None})
+        kw = {"track_width": 3.0, "pixel_threshold": 0.5, "window": sc["window"], "sigma": sc["sigma"], "velocity": sc["vel"],
+              "diffusion": sc["diffusion"], "sigma_cutoff": sc["cutoff"], "bias_correction": False}
+        group = _lk().track_greedy(kymo, "red", **kw)
+        fr = [(np.array([c for c, _ in f]), None, np.array([a for _, a in f])) for f in frames]
+        nodes = lines_to_nodes(fr, [(t.time_idx, t.coordinate_idx) for t in group])
+        tie = any(len(set(a for _, a in f)) < len(f) or len(set(c for c, _ in f)) < len(f) for f in frames)
+        return [("TIE " if tie else "") + show_nodes(nodes)], ops
+    except Unreachable:
+        raise
     except Exception as e:
         return [errname(e)], ops
 
 
+_COLUMN_KYMOS = {}
+
+
+def run_sumwin(case):
+    """the photon-count window on one column: a one-line, uncalibrated kymograph (pixel size exactly 1, so the pixel
+    coordinate is the stated one bit for bit), a one-point KymoTrack at the stated coordinate, and the PUBLIC
+    `sample_from_image(half width, correct_origin=True)` (pixel centres at the integers) — the window
+    `track_greedy`/`refine_tracks_centroid` sum their photon counts over (tied in the greedy and edit streams)"""
+    col = case["col"]
+    ops = [f"c08.sumwin {case['w']} {enc_list(col)} {enc_rat(case['c'])} 1/2"]
+    key = tuple(col)
+    try:
+        if key not in _COLUMN_KYMOS:
+            if len(_COLUMN_KYMOS) > 64:
+                _COLUMN_KYMOS.clear()
+            _COLUMN_KYMOS[key] = make_kymo({"image": [[v] for v in col], "line_time": 1.0, "pixel_size_um": None})
+        t = make_track([0], [case["c"]], _COLUMN_KYMOS[key], 1.0)
+        if t is None:
+            return [UNSEEN], ops
+        r = t.sample_from_image(case["w"], correct_origin=True)
+        return [str(int(r[0]))], ops
+    except Unreachable:
+        raise
+    except Exception as e:
+        return [errname(e)], ops
+
+
+def _rect_seen_by_peak_finder(case):
+    """the pixel rectangle `track_greedy(rect=…)` hands to the peak finder on a kymograph with the stated line time and
+    pixel size: (True, rect) or (False, None) when the spy on the peak finder cannot see it"""
+    kymo = make_kymo({"image": small_image(), "line_time": case["line_time"], "pixel_size_um": case["pixel_size"]})
+    sp = Spies()
+    err = None
+    try:
+        with sp:
+            _lk().track_greedy(kymo, "red", pixel_threshold=2.0, rect=tuple(tuple(p) for p in case["rect"]))
+    except Exception as e:  # whatever happens after (or instead of) the call of the peak finder
+        err = e
+    fkp = sp.rec.get("fkp")
+    if fkp is None or isinstance(fkp["rect"], str):
+        if err is not None and _find("find_kymograph_peaks")[0] is not None:
+            raise err
+        return False, None
+    return True, fkp["rect"]
+
+
 def run_rect(case):
-    kt = _mods()[0]
     (s0, x0), (s1, x1) = case["rect"]
     lt, ps = case["line_time"], case["pixel_size"]
     ops = [f"c08.rect {enc_rat(lt)} {enc_rat(ps)} {enc_rat(s0)} {enc_rat(x0)} {enc_rat(s1)} {enc_rat(x1)}"]
     try:
-        r = kt._to_pixel_rect(case["rect"], ps, lt)
-        return [enc_list([r[0][0], r[0][1], r[1][0], r[1][1]])], ops
+        seen, r = _rect_seen_by_peak_finder(case)  # public entry, observed at the anchored peak finder
+        if not seen:
+            f = _find("_to_pixel_rect")[0]  # the private helper, while it is there under this name
+            if f is None or _bound(f, (case["rect"], ps, lt), {}) is None:
+                return [UNSEEN], ops
+            r = f(case["rect"], ps, lt)
+        try:
+            return ["none" if r is None else enc_list([r[0][0], r[0][1], r[1][0], r[1][1]])], ops
+        except (TypeError, IndexError, ValueError):
+            return [UNSEEN], ops
+    except Unreachable:
+        raise
     except Exception as e:
         return [errname(e)], ops
 
 
 def run_units(case):
-    _, _, _, _, kk, _ = _mods()
     lt, ps = case["line_time"], pixel_size(case)
     ops = [f"c08.units {enc_rat(lt)} {enc_rat(ps)} {enc_list(case['idx'])} {enc_list(case['coords'], lambda x: enc_rat(float(x)))}"]
     try:
-        kymo = make_kymo(case)
-        t = kk.KymoTrack(np.array(case["idx"], dtype=np.int64), np.array(case["coords"], dtype=float), kymo, "red", lt)
+        t = make_track(case["idx"], case["coords"], make_kymo(case), lt)
+        if t is None:
+            return [UNSEEN], ops
         try:
             dur = enc_float(t.duration)
         except IndexError:
             dur = "IndexError"
         return [" ".join([enc_list(t.seconds, enc_float), enc_list(t.position, enc_float), enc_list(t.coordinate_idx, enc_float), dur])], ops
+    except Unreachable:
+        raise
     except Exception as e:
         return [errname(e)], ops
 
 
 def run_badparam(case):
-    kt = _mods()[0]
     ps = pixel_size(case)
     tw = track_width_of(case)
     img = np.array(case["image"], dtype=float)
@@ -522,8 +909,10 @@ def run_badparam(case):
     bound = float(np.nextafter(3 * ps, 0))
     ops = [f"c08.validate {enc_rat(tw)} {enc_rat(bound)} {enc_rat(thr)} {enc_rat(case.get('diffusion') or 0.0)}"]
     try:
-        kt.track_greedy(make_kymo(case), "red", **greedy_kwargs(case))
+        _lk().track_greedy(make_kymo(case), "red", **greedy_kwargs(case))
         return ["ok"], ops
+    except Unreachable:
+        raise
     except Exception as e:
         return [errname(e)], ops
 
@@ -543,13 +932,27 @@ def _carry(stated, n):
     return [None] * n
 
 
-def _combine(groups, mix, kk):
+def _regroup(like, tracks):
+    """a KymoTrackGroup (the class of the group `like`, as the public tracker returned it) of the given tracks"""
+    return type(like)(list(tracks))
+
+
+def _private(obj, name, *args):
+    """the private method `name` of obj, if it is (still) there and takes these arguments; _Skip otherwise — the step is
+    then recorded as not reachable instead of surfacing an AttributeError/TypeError as an answer of the implementation"""
+    m = getattr(obj, name, None)
+    if m is None or not callable(m) or _bound(m, args, {}) is None:
+        raise _Skip(name)
+    return m
+
+
+def _combine(groups, mix):
     """one group from the tracks of several kymographs"""
     if len(groups) == 1:
         return groups[0]
     if mix == "interleave":
         keyed = sorted(((j, i) for i, g in enumerate(groups) for j in range(len(g))))
-        return kk.KymoTrackGroup([groups[i][j] for j, i in keyed])
+        return _regroup(groups[0], [groups[i][j] for j, i in keyed])
     if mix == "sandwich":
         out = groups[0][:1]
         for g in groups[1:]:
@@ -564,7 +967,7 @@ def _combine(groups, mix, kk):
 def run_edit(case):
     """structural invariants, units and photon counts after editing/refining: judged by the oracle (the first op
     carries the dump); a few of the photon counts that a step reports for a stated width also go through the model"""
-    kt, _, _, _, kk, _ = _mods()
+    kt = _lk()  # track_greedy, track_lines, filter_tracks, refine_tracks_centroid, refine_tracks_gaussian: public
     envs = envs_of(case)
     tw = track_width_of(case)
     bounds = [float(np.nextafter(3 * pixel_size(e), 0)) for e in envs]
@@ -587,7 +990,7 @@ def run_edit(case):
                 groups = [kt.track_lines(k, "red", case["line_width"], case.get("max_lines", 10)) for k in kymos]
             else:
                 groups = [kt.track_greedy(k, "red", **greedy_kwargs(case)) for k in kymos]
-            group = _combine(groups, case.get("mix"), kk)
+            group = _combine(groups, case.get("mix"))
         # [w]: the photon counts of the track were reported for the stated width w (None inside = the default width)
         stated = [[case["line_width"] if lines_tracker else case.get("track_width")] for _ in group]
         src = lambda t: source_of(t, kymos)  # noqa: E731
@@ -598,17 +1001,17 @@ def run_edit(case):
                 with warnings.catch_warnings():
                     warnings.simplefilter("ignore")
                     if name == "interpolate":
-                        group = kk.KymoTrackGroup([t.interpolate() for t in group])
+                        group = _regroup(group, [t.interpolate() for t in group])
                         stated = [None] * len(group)
                     elif name == "split" and len(group):
                         tr = group[st[1] % len(group)]
-                        group._split_track(tr, st[2] % (len(tr) + 1), st[3])
+                        _private(group, "_split_track", tr, st[2] % (len(tr) + 1), st[3])(tr, st[2] % (len(tr) + 1), st[3])
                         stated = _carry(stated, len(group))
                     elif name == "merge" and len(group):
                         a, b = group[st[1] % len(group)], group[st[3] % len(group)]
-                        if src(a) != src(b):
+                        if not same_source(src(a), src(b)):
                             raise ValueError("not-applicable: the two tracks are from different kymographs")
-                        group._merge_tracks(a, st[2] % len(a), b, st[4] % len(b))
+                        _private(group, "_merge_tracks", a, st[2] % len(a), b, st[4] % len(b))(a, st[2] % len(a), b, st[4] % len(b))
                         stated = _carry(stated, len(group))
                     elif name == "filter":
                         group = kt.filter_tracks(group, minimum_length=st[1], minimum_duration=st[2])
@@ -625,7 +1028,7 @@ def run_edit(case):
                     elif name == "interpolate_some" and len(group):
                         # only the selected tracks are interpolated, the others keep their localisation as it is
                         sel = _selected(st[1], len(group))
-                        group = kk.KymoTrackGroup([t.interpolate() if s_ else t for t, s_ in zip(group, sel)])
+                        group = _regroup(group, [t.interpolate() if s_ else t for t, s_ in zip(group, sel)])
                         stated = [None if s_ else x for x, s_ in zip(stated, sel)]
                     elif name == "refine_centroid_some" and len(group):
                         sel = _selected(st[1], len(group))
@@ -641,18 +1044,25 @@ def run_edit(case):
                         # two different tracks (of the same kymograph), the one that starts first connected to the other
                         i = st[1] % len(group)
                         a = group[i]
-                        others = [t for t in list(group)[i + 1 :] + list(group)[:i] if src(t) == src(a)]
+                        others = [t for t in list(group)[i + 1 :] + list(group)[:i] if same_source(src(t), src(a))]
                         if others:
                             b = others[st[3] % len(others)]
-                            group._merge_tracks(a, st[2] % len(a), b, st[4] % len(b))
+                            _private(group, "_merge_tracks", a, st[2] % len(a), b, st[4] % len(b))(a, st[2] % len(a), b, st[4] % len(b))
                             stated = _carry(stated, len(group))
                     elif name == "merge_ends" and len(group) >= 2:
                         # the usual use: the last point of a track connected to the first point of a later one
                         i = st[1] % len(group)
                         a = group[i]
-                        later = [t for t in group if t is not a and src(t) == src(a) and int(t.time_idx[0]) > int(a.time_idx[-1])]
+                        later = [t for t in group if t is not a and same_source(src(t), src(a)) and int(t.time_idx[0]) > int(a.time_idx[-1])]
                         if later:
-                            group._merge_tracks(a, len(a) - 1, later[st[2] % len(later)], 0)
+                            b = later[st[2] % len(later)]
+                            try:
+                                _private(group, "_merge_tracks", a, len(a) - 1, b, 0)(a, len(a) - 1, b, 0)
+                            except _Skip:
+                                # the public form of this very merge: the concatenation `a + b` of the two whole tracks,
+                                # put in the place of the first one
+                                joined = a + b
+                                group = _regroup(group, [joined if t is a else t for t in group if t is not b])
                             stated = _carry(stated, len(group))
                     elif name == "regroup" and len(group):
                         # the same tracks in another order / a subset of them (indexing and `+` of groups)
@@ -670,6 +1080,8 @@ def run_edit(case):
                 steps.append({"step": name, "tracks": dump_edit_group(group, kymos, shw), "stated": list(stated)})
             except (ValueError, RuntimeError) as e:
                 steps.append({"step": name, "refused": errname(e)})
+            except _Skip as e:
+                steps.append({"step": name, "unreachable": str(e)})
         ans = ["ok " + json.dumps({"steps": steps})]
         # a few of the photon counts each step reports for a stated width, through the model's window sum
         for st in steps:
@@ -678,19 +1090,28 @@ def run_edit(case):
             pts = [
                 (k, i)
                 for k, (t, w) in enumerate(zip(st["tracks"], st["stated"]))
-                if w is not None and t["pc"] is not None and t["src"] >= 0
+                if w is not None and t["pc"] is not None and _one_source(t["src"]) is not None
                 for i in range(len(t["t"]))
-                if 0 <= t["t"][i] < len(envs[t["src"]]["image"][0]) and math.isfinite(t["cidx"][i])
+                if 0 <= t["t"][i] < len(envs[_one_source(t["src"])]["image"][0]) and math.isfinite(t["cidx"][i])
             ]
             for k, i in pts[:: max(1, len(pts) // 2)][:2]:
                 t = st["tracks"][k]
-                env = envs[t["src"]]
+                env = envs[_one_source(t["src"])]
                 col = [int(row[t["t"][i]]) for row in env["image"]]
                 ops.append(f"c08.sumwin {stated_half_width(st['stated'][k][0], env)} {enc_list(col)} {enc_rat(t['cidx'][i])} 1/2")
                 ans.append(str(int(t["pc"][i])))
         return ans, ops
+    except Unreachable:
+        raise
     except Exception as e:
         return [errname(e)], ops
+
+
+def _one_source(src):
+    """the index of the source kymograph of a dumped track when it is certain, else None"""
+    if isinstance(src, list):
+        return src[0] if len(src) == 1 else None
+    return src if src >= 0 else None
 
 
 def _selected(bits, n):
@@ -729,8 +1150,62 @@ def _close(a, b, rel=1e-12, abs_=1e-300):
     return abs(a - b) <= max(rel * max(abs(a), abs(b)), abs_)
 
 
+def _dec_listlist(s_, f):
+    inner = s_.strip()[1:-1]
+    return [[f(x) for x in part.split(",")] if part else [] for part in inner.split(";")] if inner != "" else []
+
+
+def link_hangs_on_last_bits(op, rel=1e-12):
+    """a `c08.link` op in which some linking decision depends on the last bits of the float evaluation: within the window,
+    a peak lies within rel (1e-12, relative to the size of the numbers involved) of the edge of the cone of an earlier peak
+    WITHOUT lying exactly on it, or two peaks of one line are that close to equally far from the position predicted from an
+    earlier peak WITHOUT being exactly equally far.  "Exactly" is decided in rational arithmetic on the doubles (the
+    square root by squaring), so the exact-tie cases of the small scope and the corpus keep their full strictness."""
+    toks = op.split(" ")
+    try:
+        window = int(toks[1])
+        vel, sigma, diffusion, cutoff = (dec_float(x) for x in toks[2:6])
+        coords = _dec_listlist(toks[6], dec_float)
+    except Exception:
+        return False
+    if not all(math.isfinite(v) for v in (vel, sigma, diffusion, cutoff)) or diffusion < 0 or cutoff < 0:
+        return False
+    reach = max(window, 1)
+    F = Fraction
+    for f1, tips in enumerate(coords):
+        for f2 in range(f1 + 1, min(len(coords), f1 + reach + 1)):
+            cands = coords[f2]
+            if not cands:
+                continue
+            dt = f2 - f1
+            lim = cutoff * (sigma + math.sqrt(2 * diffusion * dt))
+            for x in tips:
+                mu = x + vel * dt
+                devs = [abs(c - mu) for c in cands]
+                scale = max(1.0, abs(mu), abs(lim), max(abs(c) for c in cands))
+                for c, d in zip(cands, devs):
+                    if abs(d - lim) <= rel * scale:
+                        # exactly on the edge?  |c - x - v dt| - k sigma == sqrt(2 D dt k^2)
+                        a_ = abs(F(c) - F(x) - F(vel) * dt) - F(cutoff) * F(sigma)
+                        s_ = 2 * F(diffusion) * dt * F(cutoff) ** 2
+                        if not (a_ >= 0 and a_ * a_ == s_):
+                            return True
+                for j in range(len(cands)):
+                    for k in range(j + 1, len(cands)):
+                        if abs(devs[j] - devs[k]) <= rel * scale and min(devs[j], devs[k]) <= lim + rel * scale:
+                            dj = abs(F(cands[j]) - F(x) - F(vel) * dt)
+                            dk = abs(F(cands[k]) - F(x) - F(vel) * dt)
+                            if dj != dk:
+                                return True
+    return False
+
+
 def agree(case, i, ia, ma):
-    op = computed(case)[1][i].split(" ")[0]
+    op, op_coord = op_info(case, i)
+    if ia == UNSEEN:
+        # an observation of an internal mechanism that the harness could not make on this code (the function, parameter
+        # or attribute it is read from goes under another name): nothing to compare; the oracle judges the public results
+        return True
     if ma == "bad-op":
         return False
     if op == "c08.validate":
@@ -749,7 +1224,13 @@ def agree(case, i, ia, ma):
     if op == "c08.link":
         if ia.startswith("TIE "):
             return True
-        return ia == ma
+        if ia == ma:
+            return True
+        # the model takes the linking decisions on the same doubles with the expression the code uses today; an
+        # algebraically equal expression may round the other way when a peak sits within the last bits of the cone edge
+        # (or two peaks within the last bits of equally far from the prediction).  Such a case says nothing; exact ties
+        # (a peak exactly ON the edge, two peaks exactly equally far) stay decided: strict inequality, first maximum
+        return (not ia.endswith("Error")) and link_hangs_on_last_bits(computed(case)[1][i])
     if op == "c08.params":
         try:
             a = dec_list(ia, dec_float)
@@ -766,7 +1247,7 @@ def agree(case, i, ia, ma):
             return False
         if ia == toks[2]:
             return True
-        c = Fraction(computed(case)[1][i].split(" ")[3].split("/")[0]) / Fraction(computed(case)[1][i].split(" ")[3].split("/")[1])
+        c = Fraction(op_coord.split("/")[0]) / Fraction(op_coord.split("/")[1])
         x = c + Fraction(1, 2)
         near = abs(x - round(x)) < Fraction(1, 10**9)
         return near and ia in (toks[1], toks[3])
@@ -834,6 +1315,8 @@ def window_sum(col, w, k):
 
 
 def oracle_greedy(case, ia):
+    if ia[0] == UNSEEN:
+        return None
     if not ia[0].startswith("ok "):
         # refusing parameters is judged by the correspondence of c08.validate; valid-looking cases must not fail
         if ia[0] in ("ValueError", "RuntimeError"):
@@ -856,13 +1339,26 @@ def oracle_greedy(case, ia):
         for a, b in zip(t["t"], t["t"][1:]):
             if b - a > max(window, 1):
                 return f"gap: track {k} jumps from line {a} to {b} with window {window}"
-    # every detected peak in exactly one track
-    if tracks and any("raw" not in t for t in tracks):
-        return "partition: the number of tracks differs from the number of lines the linker returned"
-    have = sorted((t["t"][i], t["raw"][i]) for t in tracks for i in range(len(t["t"])))
-    want = sorted((f, c) for f, cs in enumerate(peaks) for c in cs)
-    if have != want:
-        return f"partition: track points {have[:6]}… are not exactly the detected peaks {want[:6]}… ({len(have)} vs {len(want)})"
+    # every detected peak in exactly one track.  The detected peaks are internal data (the per-line peak lists handed to the
+    # linker): compared while they can be seen; the public part of the clause — no point in two tracks — always
+    seen = peaks is not None and d.get("n_lines_raw") is not None
+    if seen:
+        if tracks and any("raw" not in t for t in tracks):
+            return "partition: the number of tracks differs from the number of lines the linker returned"
+        have = sorted((t["t"][i], t["raw"][i]) for t in tracks for i in range(len(t["t"])))
+        want = sorted((f, c) for f, cs in enumerate(peaks) for c in cs)
+        if have != want:
+            return f"partition: track points {have[:6]}… are not exactly the detected peaks {want[:6]}… ({len(have)} vs {len(want)})"
+    else:
+        pts = sorted((t["t"][i], t["cidx"][i]) for t in tracks for i in range(len(t["t"])))
+        for p, q in zip(pts, pts[1:]):
+            if p == q:
+                return f"partition: the point (line {p[0]}, pixel {p[1]}) is in two tracks"
+    # the pixel coordinates the tracker worked with: as the linker returned them while that can be seen (`raw`), else the
+    # track's own public pixel coordinates (position / pixel size: the same numbers up to the rounding of that round trip)
+    for t in tracks:
+        if "raw" not in t:
+            t["raw"], t["raw_is_cidx"] = t["cidx"], True
     for k, t in enumerate(tracks):
         for c, r_ in zip(t["cidx"], t["raw"]):
             if abs(c - r_) > 4 * abs(np.spacing(r_)) + 1e-300:
@@ -873,8 +1369,9 @@ def oracle_greedy(case, ia):
         t0, t1 = int(Fraction(s0) / Fraction(lt)), int(Fraction(s1) / Fraction(lt))
         p0, p1 = int(Fraction(x0) / Fraction(ps)), int(Fraction(x1) / Fraction(ps))
         for k, t in enumerate(tracks):
+            slack = 4 * float(np.spacing(float(max(abs(p0), abs(p1), 1)))) if t.get("raw_is_cidx") else 0.0
             for tt, c in zip(t["t"], t["raw"]):
-                if not (t0 <= tt < t1 and p0 <= c < p1):
+                if not (t0 <= tt < t1 and p0 - slack <= c < p1 + slack):
                     return f"rect: track {k} has point (line {tt}, pixel {c}) outside the rectangle lines [{t0},{t1}) pixels [{p0},{p1})"
     # cone, in physical units
     v = case.get("velocity") or 0.0
@@ -913,11 +1410,15 @@ def oracle_greedy(case, ia):
 
 def oracle_link(case, ia):
     a = ia[0]
+    if a == UNSEEN:
+        return None
     if a.startswith("NONDETERMINISTIC"):
         return "deterministic: two runs of the linker on the same peaks differ"
     if a.endswith("Error"):
         return f"linker raised {a}"
     tracks = parse_nodes(a)
+    if case.get("via") == "image":
+        case = scaled_link_case(case)
     frames = case["frames"]
     flat = [n for tr in tracks for n in tr]
     want = sorted((f, j) for f, fr in enumerate(frames) for j in range(len(fr)))
@@ -940,6 +1441,8 @@ def oracle_link(case, ia):
 
 
 def oracle_edit(case, ia):
+    if ia[0] == UNSEEN:
+        return None
     if not ia[0].startswith("ok "):
         return None if ia[0] in ("ValueError", "RuntimeError") else f"editing program raised {ia[0]}"
     d = json.loads(ia[0][3:])
@@ -951,24 +1454,36 @@ def oracle_edit(case, ia):
         where = "after " + st["step"] + ":"
         stated = st.get("stated") or [None] * len(st["tracks"])
         for k, t in enumerate(st["tracks"]):
-            # every track is judged on the kymograph it was tracked on
-            if not 0 <= t.get("src", 0) < len(envs):
+            # every track is judged on the kymograph it was tracked on (a list: the kymographs it may have been tracked on,
+            # when that could only be told from its public data — it must then be right on one of them)
+            src = t.get("src", 0)
+            cands = src if isinstance(src, list) else [src]
+            if not cands or not all(0 <= c < len(envs) for c in cands):
                 return f"well-formed: {where} track {k} belongs to none of the {len(envs)} source kymographs of the group"
-            env = envs[t.get("src", 0)]
-            img, ps, lt = env["image"], pixel_size(env), env["line_time"]
-            tag = f"{where} (kymograph {t.get('src', 0)})" if len(envs) > 1 else where
-            r = well_formed([t], len(img), len(img[0]), ps, tag, k)
-            if r:
-                return r
-            if not t["t"]:
-                return f"well-formed: after {st['step']} track {k} is empty"
-            r = units_ok([t], ps, lt, tag, k)
-            if r:
-                return r
-            r = counts_ok(t, k, img, stated[k], stated_half_width(stated[k][0], env) if stated[k] is not None else None, shw, tag)
-            if r:
-                return r
+            first = None
+            for c in cands:
+                r = _judge_edit_track(t, k, c, envs, st, stated, shw, where)
+                if r is None:
+                    break
+                first = first or r
+            else:
+                return first
     return None
+
+
+def _judge_edit_track(t, k, src, envs, st, stated, shw, where):
+    env = envs[src]
+    img, ps, lt = env["image"], pixel_size(env), env["line_time"]
+    tag = f"{where} (kymograph {src})" if len(envs) > 1 else where
+    r = well_formed([t], len(img), len(img[0]), ps, tag, k)
+    if r:
+        return r
+    if not t["t"]:
+        return f"well-formed: after {st['step']} track {k} is empty"
+    r = units_ok([t], ps, lt, tag, k)
+    if r:
+        return r
+    return counts_ok(t, k, img, stated[k], stated_half_width(stated[k][0], env) if stated[k] is not None else None, shw, tag)
 
 
 def counts_ok(t, k, img, stated, hw, shw, where):
@@ -1025,6 +1540,8 @@ def oracle(case, ia):
         return oracle_link(case, ia)
     if k == "edit":
         return oracle_edit(case, ia)
+    if ia and ia[0] == UNSEEN and k in ("sumwin", "units", "rect"):
+        return None
     if k == "sumwin":
         if ia[0].endswith("Error"):
             return f"photon-count: raised {ia[0]}"
@@ -1056,6 +1573,8 @@ def oracle(case, ia):
     if k == "rect":
         if ia[0].endswith("Error"):
             return None
+        if ia[0] == "none":
+            return "rect: track_greedy handed no rectangle to the peak finder although one was requested"
         got = dec_list(ia[0])
         (s0, x0), (s1, x1) = case["rect"]
         lt, ps = case["line_time"], case["pixel_size"]
@@ -1071,6 +1590,8 @@ def oracle(case, ia):
 
 def nontrivial(case, ia):
     k = case["op"]
+    if ia[0] == UNSEEN:
+        return False
     if k == "greedy":
         if not ia[0].startswith("ok "):
             return False
@@ -1546,8 +2067,12 @@ def cases(tier, rng):
                     for vel, sigma, cutoff, diffusion in ((0.0, 1.0, 1.0, 0.0), (1.0, 0.5, 2.0, 0.0), (0.0, 0.5, 1.0, 0.5)):
                         if quick and nf == 3 and (w, vel) not in ((1, 0.0), (2, 1.0), (2, 0.0)):
                             continue
-                        yield {"stream": "small-scope", "op": "link", "frames": frames, "window": w, "vel": vel,
-                               "sigma": sigma, "cutoff": cutoff, "diffusion": diffusion}
+                        c = {"stream": "small-scope", "op": "link", "frames": frames, "window": w, "vel": vel,
+                             "sigma": sigma, "cutoff": cutoff, "diffusion": diffusion}
+                        yield c
+                        if nf < 3 or n_small % 2 == 0:
+                            # the same layout drawn into an image and linked by the public tracker (run_link_public)
+                            yield dict(c, via="image", stream="small-scope-public")
     # ---- exhaustive small scope: the photon-count window
     vals = [1, 2, 4, 8, 16]
     for n in range(1, 6):
@@ -1580,6 +2105,8 @@ def cases(tier, rng):
         c = gen_link(sub)
         c.update({"stream": "random-link", "subseed": i})
         yield c
+        if all(float(x).is_integer() for f in c["frames"] for x, _ in f):
+            yield dict(c, via="image", stream="random-link-public")
     r = rng.fork("c08-sumwin")
     for i in range(300 if quick else 5000):
         sub = r.fork(i)
@@ -1656,18 +2183,28 @@ def extra_coverage(results):
             k = pixel_of(c["c"])
             if k - c["w"] < 0 or k + c["w"] >= len(c["col"]):
                 clipped += 1
-    steps, refused, line_tracked = {}, {}, 0
+    steps, refused, unreachable, line_tracked = {}, {}, {}, 0
     multi_cases = multi_steps = counts_stated = counts_sampled = 0
+    unseen, src_guessed, lenient_links = {}, 0, 0
+    for r in results:
+        for o, a, m in zip(r["ops"], r["impl"], r["model"]):
+            if a == UNSEEN:
+                unseen[o.split(" ")[0]] = unseen.get(o.split(" ")[0], 0) + 1
+            elif o.startswith("c08.link ") and not a.startswith("TIE ") and a != m and not r["disagree"]:
+                lenient_links += 1
+        if r["case"]["op"] == "greedy" and r["impl"][0].startswith("ok ") and json.loads(r["impl"][0][3:])["peaks"] is None:
+            unseen["peak lists of the linker (partition clause: only 'no point in two tracks')"] = unseen.get("peak lists of the linker (partition clause: only 'no point in two tracks')", 0) + 1
     for r in results:
         c = r["case"]
         if c["op"] == "edit" and r["impl"][0].startswith("ok "):
             line_tracked += c.get("tracker") == "lines"
             several = False
             for st in json.loads(r["impl"][0][3:])["steps"]:
-                d = refused if "refused" in st else steps
+                d = refused if "refused" in st else unreachable if "unreachable" in st else steps
                 d[st["step"]] = d.get(st["step"], 0) + 1
+                src_guessed += sum(1 for t in st.get("tracks", []) if isinstance(t.get("src"), list))
                 if "tracks" in st:
-                    if len({t.get("src", 0) for t in st["tracks"]}) > 1:
+                    if len({json.dumps(t.get("src", 0)) for t in st["tracks"]}) > 1:
                         multi_steps += 1
                         several = True
                     for t, w in zip(st["tracks"], st.get("stated") or [None] * len(st["tracks"])):
@@ -1679,6 +2216,10 @@ def extra_coverage(results):
     return {
         "edit_steps_done": dict(sorted(steps.items())),
         "edit_steps_refused": dict(sorted(refused.items())),
+        "edit_steps_not_reachable_private_method_gone": dict(sorted(unreachable.items())),
+        "observations_not_reachable_on_this_code": dict(sorted(unseen.items())),
+        "edit_tracks_whose_kymograph_was_told_from_public_data_only": src_guessed,
+        "link_ops_that_hang_on_the_last_bits_compared_leniently": lenient_links,
         "edit_cases_tracked_with_track_lines": line_tracked,
         "edit_cases_with_tracks_of_several_kymographs_in_one_group": multi_cases,
         "edit_steps_on_groups_of_several_kymographs": multi_steps,
